@@ -469,7 +469,7 @@ def main(tier, seed, pid='C03', halting=False):
 EXITS = ['0', '1', '7', 'v', '-1', '00', '']
 
 
-def job_runner_step(ctx, jr, n, pid='C03', halting=False):
+def job_runner_step(ctx, jr, n, pid='C03', halting=False, only=None):
     """One fetch/execute iteration of run_instructions from an ARBITRARY state (instruction index, variables, label table, shared
     state), with run_instruction and run_on_error_instruction replaced by arbitrary results and arbitrary effects on the
     variables. A run is the iteration of this step, so the lemma covers programs and runs of any length."""
@@ -595,6 +595,8 @@ def job_runner_step(ctx, jr, n, pid='C03', halting=False):
                         'a failure is a Runtime error carrying line and source of the failing instruction'))
             obs.append((zand(rs.g, c_crash), str_eq(msg, rmsg), 'a crash carries the message of the command'))
             obs.append((zand(rs.g, oe_fail), str_eq(msg, oe_msg), 'a failing error handler ends the run with its message'))
+    if only is not None:      # another property claims only the obligations that concern it (panic / unwinding obligations stay with C03)
+        obs = [x for x in obs if any(w in x[2] for w in only)]; e.obligations = []
     for g, cnd, msg in obs: e.obligations.append(Obligation(g, cnd, '%s runner step: %s' % (pid, msg), 'assert', 'oracle'))
 
     def extract(m, o=None):
